@@ -22,11 +22,6 @@ Proof. vm_compute. discriminate. Qed.
 Lemma fallthrough_safe : fallthrough = FtNoValue.
 Proof. vm_compute. reflexivity. Qed.
 
-Ltac dm :=
-  match goal with
-  | |- context [match ?x with _ => _ end] => destruct x
-  end.
-
 Section NoPanic.
 Variable O : fops.
 Variable X : xops O.
